@@ -216,3 +216,9 @@ def run(cx, chk):
     c04.check_cursor(cx, chk, cx.runtime, "runtime")
     if "C04.cursor" in chk.rules:
         chk.rules["C09.cursor"] = chk.rules.pop("C04.cursor")
+    # "the start is after whitespace the caller skipped": every reference made by a skipping rule is preceded by the skip, in the
+    # caller (shared with C08.inst: the whitespace skeleton of every lifted rule equals its grammar's)
+    from . import c08
+    c08.check_shadow_and_inst(cx, chk)
+    for k_ in [k_ for k_ in chk.rules if k_.startswith("C08.")]:
+        chk.rules["C09.skip" + k_[len("C08"):].replace(".inst", "")] = chk.rules.pop(k_)
